@@ -241,6 +241,11 @@ func (g *Gen) havocComps(h Heap, comps []string, hint string) Heap {
 		}
 		h[c] = n
 	}
+	for _, c := range comps {
+		if c == compE(SRef) {
+			g.closedElems(h)
+		}
+	}
 	return h
 }
 
@@ -304,6 +309,10 @@ func (g *Gen) applyContract(b *ssa.BasicBlock, fc *FuncContract, names []string,
 		env.vars["this"] = args[0]
 	}
 	anchor := g.anchorText(pos, "call")
+	// what the callee guarantees is assumed only for executions in which its preconditions held at the call: were the
+	// postconditions visible while a precondition is checked, a requires that follows from the callee's own ensures over
+	// unmodified state (requires ok(x) / ensures ok(x)) would prove itself
+	var preHeld []string
 	if g.mode.Contracts || g.mode.Sweep {
 		for _, c := range fc.Requires {
 			t, err := env.evalBool(c.Expr)
@@ -312,6 +321,7 @@ func (g *Gen) applyContract(b *ssa.BasicBlock, fc *FuncContract, names []string,
 				continue
 			}
 			g.oblige("pre", anchor+" :: "+c.Text, c.Text, guard, t, pos)
+			preHeld = append(preHeld, t)
 		}
 		if callee != nil {
 			g.checkStructInvs(h, guard, pos, "call "+anchor)
@@ -345,6 +355,16 @@ func (g *Gen) applyContract(b *ssa.BasicBlock, fc *FuncContract, names []string,
 	g.assumeAllocated(h2, r)
 	env2 := &Env{g: g, vars: env.vars, heap: h2, old: h, noLocals: env.noLocals, pkg: env.pkg, block: env.block, atEnd: env.atEnd}
 	g.bindResults(env2, r, res)
+	g0 := guard
+	guard = g.curGuard(guard)
+	// when the preconditions strengthened the block's path condition (the usual case) that condition already is
+	// "reached the call and every precondition held"; otherwise name the conjunction
+	if len(preHeld) > 0 && (guard == g0 || g.curBlock == nil || guard != g.reach[g.curBlock]) {
+		pg := g.S.freshName("pre.held")
+		g.S.declare(pg, "Bool")
+		g.S.assert(eq(pg, and(append([]string{guard}, preHeld...)...)))
+		guard = pg
+	}
 	for _, c := range fc.Ensures {
 		g.assumeClause(env2, c, guard)
 	}
